@@ -49,10 +49,9 @@ func checkC07(r *mon.Run) {
 		"UDP/TCP/SCMP/unknown L4, router-alert flags on hops of other ASes) that the router forwards or delivers is byte-compared with its input; differences are allowed " +
 		"only under the mask of mutable path state derived from the statement; one-hop packets: second hop field and segment identifier; class = shape/ingress/ext/l4/changed-fields"
 	r.Assumptions = []string{"which value the mutable fields take is C22/C02's concern; here only *where* changes occur"}
-	rng := r.Rand("c07")
-	nStars := r.Pick(4, 16)
-	per := r.Pick(8000, 100000)
-	for si := 0; si < nStars; si++ {
+	nStars := r.Pick(16, 48)
+	per := r.Pick(30000, 250000)
+	forStars(r, nStars, func(si int, rng *rand.Rand) {
 		s := newStdStar(r, rng, si%2 == 0, false)
 		for i := 0; i < per; i++ {
 			c07Case(r, rng, s, i)
@@ -60,7 +59,7 @@ func checkC07(r *mon.Run) {
 		for i := 0; i < per/10; i++ {
 			c07OneHop(r, rng, s, i)
 		}
-	}
+	})
 	r.RequireClasses("onehop/outgoing/forwarded", "onehop/incoming/delivered")
 	r.Require(int64(nStars*per)/2, 40, "forwarded_compared", "delivered_compared", "segid_changed", "currhf_changed", "epic_compared")
 }
